@@ -234,3 +234,24 @@ Example ex_chain :
   /\ option_map rrendered (get_rev h 2)
      = Some [("t", VMap [("y", VStr "u2"); ("x", VStr "d")]); ("a", VNum 10%Z); ("u", VStr "keep")].
 Proof. vm_compute. repeat split; reflexivity. Qed.
+
+(* non-vacuity of the hypotheses of overlay_paths / reuse_defaults_are_deployed_values *)
+Example ex_overlay :
+  let f := mkFlags false false true in
+  let deployed : vmap := [("a", VNum 10%Z); ("t", VMap [("x", VStr "u")]); ("u", VStr "keep")] in
+  let newv : vmap := [("t", VMap [("y", VStr "n")]); ("a", VMap [("now", VStr "table")])] in
+  reset_values f = false /\ reuse_values f || reset_then_reuse_values f = true /\ wf (VMap deployed)
+  /\ lookup_path ["t"; "y"] (VMap (config_spec f newv deployed)) = Some (VStr "n")
+  /\ lookup_path ["t"; "x"] (VMap (config_spec f newv deployed)) = Some (VStr "u")
+  /\ lookup_path ["a"; "now"] (VMap (config_spec f newv deployed)) = Some (VStr "table")
+  /\ lookup_path ["u"] (VMap (config_spec f newv deployed)) = Some (VStr "keep").
+Proof. repeat split; reflexivity. Qed.
+
+Example ex_consistent :
+  Forall consistent (fst (run_chain [] ex_ops))
+  /\ List.length (fst (run_chain [] ex_ops)) = 5.
+Proof.
+  split; [|reflexivity].
+  destruct (run_chain [] ex_ops) as [h oks] eqn:E. simpl fst.
+  eapply chain_consistent; [|exact E]. constructor.
+Qed.
